@@ -334,6 +334,7 @@ pub fn c16(tier: Tier, _seed: u64) -> Prop {
             }
             json!({"states": states.max(1), "transitions": trans.max(1), "traces_validated_against_impl": trans})
         }),
+        profiles: vec!["release"],
     }
 }
 
